@@ -2,9 +2,32 @@
 
 package ugo
 
+import (
+	"github.com/ozanh/ugo/parser"
+	"github.com/ozanh/ugo/token"
+)
+
 // Exports for the verification harness in /verif (build tag verif only).
 
 // VerifDefineConstLit exposes SymbolTable.defineConstLit.
 func (st *SymbolTable) VerifDefineConstLit(name string) (*Symbol, bool) {
 	return st.defineConstLit(name)
+}
+
+// VerifFoldBinary exposes the optimizer's constant folding table for binary operators.
+// Operands are literal nodes; ok is false when the table does not fold the pair.
+func VerifFoldBinary(tok token.Token, left, right parser.Expr) (parser.Expr, bool) {
+	so := &SimpleOptimizer{}
+	return so.binaryop(tok, left, right)
+}
+
+// VerifFoldUnary exposes the optimizer's constant folding table for unary operators.
+func VerifFoldUnary(tok token.Token, expr parser.Expr) (parser.Expr, bool) {
+	so := &SimpleOptimizer{}
+	return so.unaryop(tok, expr)
+}
+
+// VerifIsLiteralFalsy exposes isLiteralFalsy.
+func VerifIsLiteralFalsy(expr parser.Expr) (bool, bool) {
+	return isLiteralFalsy(expr)
 }
